@@ -10,7 +10,10 @@ for f in sorted(glob.glob(os.path.join(HERE, 'manifest.d', 'C*.json'))):
 # known findings: merged from findings.d/*.json (lists of entries) at development time, never at run time
 kf = []
 for f in sorted(glob.glob(os.path.join(HERE, 'findings.d', 'C*.json'))):
-    kf.extend(json.load(open(f)))
+    for e in json.load(open(f)):
+        if e.get('status') == 'fixed':
+            e['line'] = 'fixed: property=%s %s %s' % (e['property'], e.get('commit', '?'), e['what'])
+        kf.append(e)
 json.dump(kf, open(os.path.join(HERE, 'known_findings.json'), 'w'), indent=1)
 props = [json.loads(l) for l in open(os.path.join(HERE, 'properties.jsonl'))]
 ids = [p['id'] for p in props]
